@@ -205,11 +205,7 @@ def nontrivial(fam, c):
     if c["f"] == "escape":
         return True
     strings = [c["s"], c["t"], c["u"]] + list(c["a"]) + list(c["ks"])
-    multibyte = any(ch in WIDTH_BYTES for s in strings for ch in s)
-    n = len(c["s"])
-    odd_index = c["f"] in ("index1", "slice", "substr", "substr0", "substr1", "truncate", "leftpad", "rightpad") and \
-        (c["i"] <= 0 or c["i"] > n or c["j"] < 0 or c["j"] > n)
-    return multibyte or odd_index
+    return any(ch in WIDTH_BYTES for s in strings for ch in s)
 
 
 def key_of(fam, c):
@@ -345,13 +341,21 @@ def run(tier, seed):
         a = copy.deepcopy(obs[i4])
         a["out"] = a["out"][1:]
         tests.append(("printf-width", a, obs[i4]))
-    if len(tests) < 4:
-        raise vlib.Inconclusive("observation self-test: no conforming candidate for %d of 4 corruptions" % (4 - len(tests)))
+    wanted = ["strlen-in-bytes", "substr1-short", "byte-split", "printf-width"]
+    missing = [w for w in wanted if w not in [x[0] for x in tests]]
+    fn_of = {"strlen-in-bytes": "strlen", "substr1-short": "substr1", "byte-split": "toupper", "printf-width": "fmtnum"}
+    badfns = {allcases[i][1]["f"] for i in badset}
+    unexplained = [w for w in missing if fn_of[w] not in badfns]
+    if unexplained:
+        # (on a tree that breaks the property a function may have no conforming observation left: that is a verdict, not a
+        # reason to give up; a candidate missing although the function has no non-conforming observation means a broken case space)
+        raise vlib.Inconclusive("observation self-test: no conforming candidate for %s" % ", ".join(unexplained))
     lines = []
     for _, a, o in tests:
         lines += [a, o]
-    sb, _ = b3.validate("StringsObs", lines)
-    st = {"ok": [b[0] for b in sb] == [0, 2, 4, 6], "reported": [b[0] for b in sb], "corruptions": [t[0] for t in tests]}
+    sb, _ = b3.validate("StringsObs", lines) if lines else ([], 0)
+    st = {"ok": [b[0] for b in sb] == list(range(0, 2 * len(tests), 2)), "reported": [b[0] for b in sb],
+          "corruptions": [x[0] for x in tests], "skipped_no_conforming_candidate": missing}
     cov["obs_selftest"] = st
     if not st["ok"]:
         raise vlib.Inconclusive("observation self-test failed: %r" % st)
@@ -360,6 +364,8 @@ def run(tier, seed):
     nt = {json.dumps(c, sort_keys=True) for fam, c in allcases if nontrivial(fam, c)}
     perfn = {f: len(v) for f, v in sorted(byfn.items())}
     for i in (i1, i2, i4, len(obs) // 3):
+        if i is None:
+            continue
         o = obs[i]
         cov["samples"].append({"expression": exprs.get(i) or EXPR[o["c"]["f"]], "row": rows_of[i], "typeof": raw[i][1], "result": raw[i][2]})
     cov.update({
@@ -367,9 +373,9 @@ def run(tier, seed):
         "evaluations": len(obs), "distinct_nontrivial": len(nt),
         "rule": "every case of StringsGen.tla at level %d (%s): all strings up to the bound over alphabets of 1-, 2-, 3- and 4-byte "
                 "characters x all indices in -(n+2)..n+2, all pads / patterns / separators / arrays / maps of the bound, and integer "
-                "formats value x flag set x width x length modifier x verb; non-trivial = an argument contains a multi-byte character or an "
-                "index is non-positive or beyond the length (strings), any flag, width, length modifier or non-decimal verb (formats); "
-                "distinct by case" % (level, ", ".join("%s %d" % (f, k) for f, k in perfn.items())),
+                "formats value x flag set x width x length modifier x verb; non-trivial = an argument contains a multi-byte character, so that counting bytes "
+                "and counting characters differ (strings), an escape sequence (literals), any flag, width, length modifier or non-decimal "
+                "verb (formats); distinct by case" % (level, ", ".join("%s %d" % (f, k) for f, k in perfn.items())),
         "exhaustive": True, "mlr_processes": nproc, "cases_per_function": perfn,
     })
     rc = V.finish()
